@@ -57,6 +57,7 @@ def step (s : St) (line : String) : St × List String :=
         | none => "e"
       ({ s with hRam := s.hRam.filter (·.1 ≠ i), hDisk := s.hDisk.filter (·.1 ≠ i) }, [s!"ram:{get s.hRam} disk:{get s.hDisk}"])
     | none => (s, ["bad-op"])
+  | ["noise"] => (s, ["ram:u disk:u"])   -- another file of the same process is written: no effect on this one
   | ["exists"] =>
     -- is the disk file still there? (`Remove` = unlink; the model's `removed` flag is what it means)
     (s, [s!"ram:- disk:{if s.disk.removed then "x0" else "x1"}"])
